@@ -28,9 +28,11 @@ INPUT = "in.usage"
 
 ENV_NAMES = ["HOME", "USER", "LOGNAME", "HOSTNAME", "LANG", "LC_ALL", "LC_COLLATE", "TZ", "TERM", "COLUMNS", "TMPDIR", "PWD", "SHELL",
              "SOURCE_DATE_EPOCH", "NO_COLOR", "CLICOLOR_FORCE", "RUST_BACKTRACE", "RUST_LOG", "RUST_MIN_STACK", "PATH", "XDG_CONFIG_HOME",
-             "COMPLGEN_VERSION", "CARGO_PKG_VERSION", "RANDOM", "SEED", "HASH_SEED", "MALLOC_ARENA_MAX"]
+             "COMPLGEN_VERSION", "CARGO_PKG_VERSION", "RANDOM", "SEED", "HASH_SEED", "MALLOC_ARENA_MAX",
+             # glibc allocator tunables legitimately change where allocations land (mmap vs brk, padding): layout seams too
+             "MALLOC_MMAP_THRESHOLD_", "MALLOC_TOP_PAD_", "MALLOC_PERTURB_", "MALLOC_MMAP_THRESHOLD_", "MALLOC_TRIM_THRESHOLD_"]
 ENV_VALUES = ["", "0", "1", "C", "en_US.UTF-8", "tr_TR.UTF-8", "UTC", "Asia/Tokyo", "xterm-256color", "dumb", "/tmp", "/root", "root", "nobody",
-              "1700000000", "always", "full", "debug", "/usr/bin:/bin", "x" * 300, "y" * 3000]
+              "1700000000", "always", "full", "debug", "/usr/bin:/bin", "x" * 300, "y" * 3000, "16384", "4096", "86400", "165"]
 
 
 def setup_build():
@@ -83,7 +85,7 @@ def make_grammars(seed, tier):
 def seam_vector(rng, canonical=False):
     """One vector of ambient values.  Canonical = zero random bytes, epoch 0, empty environment, no heap pad."""
     if canonical:
-        return {"rand": 0, "time": 0, "pid": 4242, "host": "canonical", "heappad": 0, "heapfrag": 0, "stack_kb": 8192, "env": {}}
+        return {"rand": 0, "time": 0, "timestep": 1, "pid": 4242, "host": "canonical", "heappad": 0, "heapfrag": 0, "stack_kb": 8192, "env": {}}
     env = {}
     for _ in range(rng.range(0, 12)):
         env[rng.choice(ENV_NAMES)] = rng.choice(ENV_VALUES)
@@ -91,6 +93,7 @@ def seam_vector(rng, canonical=False):
         env["V%d_%d" % (i, rng.below(1000))] = "z" * rng.below(rng.choice([8, 64, 1024, 20000]))
     return {
         "rand": rng.u64() | 1, "time": rng.choice([0, 1, 86400 * 365, 1700000000 + rng.below(10 ** 8), 2 ** 31 + rng.below(10 ** 6)]),
+        "timestep": rng.choice([1, 1, 1000, 10 ** 6, 10 ** 9, 5 * 10 ** 9, 3600 * 10 ** 9]),
         "pid": rng.range(2, 4000000), "host": "h%d" % rng.below(10 ** 6),
         "heappad": rng.choice([0, 16, 24, 4096, 100000, rng.below(130000), 1 << 20, rng.below(1 << 24)]),
         "heapfrag": rng.choice([0, rng.u64() | 1, rng.u64() | 1]),
@@ -109,7 +112,7 @@ def case_for(text, shell, vec, outputs=("script", "dfa", "regex")):
         argv += ["--dfa", DFA]
         roles["dotdfa"] = DFA
     argv.append(INPUT)
-    plan = ["rand %d" % vec["rand"], "time %d" % vec["time"], "pid %d" % vec["pid"], "host %s" % vec["host"], "heappad %d" % vec["heappad"], "heapfrag %d" % vec.get("heapfrag", 0)]
+    plan = ["rand %d" % vec["rand"], "time %d" % vec["time"], "timestep %d" % vec.get("timestep", 1), "pid %d" % vec["pid"], "host %s" % vec["host"], "heappad %d" % vec["heappad"], "heapfrag %d" % vec.get("heapfrag", 0)]
     return {"binary": "complgen", "argv": argv, "files": {INPUT: text}, "stdin": None, "stdout": "pipe", "roles": roles, "plan": plan,
             "env": dict(vec["env"]), "stack_kb": vec["stack_kb"], "watch": [OUT, DFA, REGEX]}
 
@@ -185,7 +188,7 @@ def run_harness(ops, files, vec, threads=False, timeout=120):
     watch = []
     for _, _, p in ops:
         watch += [p + ".script", p + ".dfa", p + ".regex", p + ".status"]
-    plan = ["rand %d" % vec["rand"], "time %d" % vec["time"], "pid %d" % vec["pid"], "host %s" % vec["host"], "heappad %d" % vec["heappad"], "heapfrag %d" % vec.get("heapfrag", 0)]
+    plan = ["rand %d" % vec["rand"], "time %d" % vec["time"], "timestep %d" % vec.get("timestep", 1), "pid %d" % vec["pid"], "host %s" % vec["host"], "heappad %d" % vec["heappad"], "heapfrag %d" % vec.get("heapfrag", 0)]
     case = {"binary": "harness", "argv": ["ops"] + (["--threads"] if threads else []), "files": fs, "stdin": None, "stdout": "pipe", "roles": {},
             "plan": plan, "env": dict(vec["env"]), "stack_kb": vec["stack_kb"], "watch": watch}
     res = proc.run_case(case, timeout=timeout)
@@ -282,7 +285,7 @@ def minimise(v):
     if v["mode"] == "directed":
         canonical = seam_vector(None, canonical=True)
         # seam values back to canonical, one at a time
-        for k in ("env", "heappad", "heapfrag", "stack_kb", "rand", "time", "pid", "host"):
+        for k in ("env", "heappad", "heapfrag", "stack_kb", "rand", "time", "timestep", "pid", "host"):
             cand = json.loads(json.dumps(cur))
             cand["vector"][k] = canonical[k]
             if cand["vector"] != cur["vector"] and holds(cand):
